@@ -277,6 +277,7 @@ def run(ctx):
                                         constants={"Scenarios": frozenset()}, invariants=["OnceOnly", "BodyExact", "ErrorsDocumented"])
     ctx.traces_validated += acc
     ctx.bounds["asgi_traces"] = len(asgi_traces)
+    inv_failures = list(tracecheck.validate.last_invariant_failures)
     # binding self-test: the same traces with one field falsified (a message count, a result, the finishing task) must be rejected
     import copy
     probe = [copy.deepcopy({"sc": t["sc"], "events": t["events"]}) for t in asgi_traces if len(t["events"]) >= 2 and len(t["sc"]["progs"]) >= 2][:30]
@@ -288,13 +289,13 @@ def run(ctx):
             e["r"] = "ok" if e["r"] != "ok" else "ClientDisconnect"
         else:
             t["events"] = [t["events"][-1]] * (len(t["events"]) + 1)       # one task finishing more accesses than its program has
-    if probe:
+    if probe and ctx.conforming() and not rejected and not inv_failures:
         pacc, prej = tracecheck.validate(wd, "TraceRequestBody", probe, constants={"Scenarios": frozenset()})
         # (a falsified trace can happen to be another legal interleaving; most cannot)
         if pacc > len(probe) // 5:
             raise common.MachineryError("trace validation accepted %d of %d falsified traces: TraceRequestBody.tla does not bind" % (pacc, len(probe)))
         ctx.notes.append("binding self-test: %d falsified traces (message count / result / finishing task), %d rejected" % (len(probe), len(probe) - pacc))
-    for tid, name, st in tracecheck.validate.last_invariant_failures:
+    for tid, name, st in inv_failures:
         ctx.violation(asgi_traces[tid]["case"], "invariant " + name, None, "recorded execution reaches a state violating %s of RequestBody.tla" % name)
     for tid, prefix in rejected:
         t = asgi_traces[tid]
